@@ -301,26 +301,69 @@ def _is_text_payload(e):
     return e[0] == 'field' and e[1][0] == 'downcast' and e[1][2] in ('Text', 'Symbol')
 
 
+def _helper_compares_lowercased(hb):
+    """is `hb` of the shape fn(a, b) -> bool { a.to_lowercase() == b.to_lowercase() } (any argument order, refs ignored)?"""
+    if hb.argc != 2 or hb.loops() or len(hb.blocks) > 12:
+        return False
+    r = strip(hb.ret_expr(), transparent=False)
+    if r[0] != 'call' or not re.search(r'PartialEq.*::(eq)$', r[1]) or len(r[2]) != 2:
+        return False
+    sides = []
+    for a in r[2]:
+        a = strip(a, transparent=False)
+        if a[0] != 'call' or not a[1].endswith('::to_lowercase') or not a[2]:
+            return False
+        root = strip(a[2][0])
+        if root[0] != 'arg':
+            return False
+        sides.append(root[1])
+    return sorted(sides) == [1, 2]
+
+
 def check_case_insensitive_compares(ctx, rid, floor_total=10):
     """In the comparison family every string equality on a Text/Symbol payload (and every comparison inside the
     expected-word closures of field_compare) lower-cases both sides; a payload handed to any other comparison is reported."""
     n_ok = 0
+    per_member = {}
+    touches_text = set()
     for rx in COMPARE_FAMILY:
         bodies = ctx.facts.find(rx)
         if not bodies:
             raise AnchorLost('comparison function /%s/ not found' % rx)
+        per_member[rx] = 0
         for b in bodies:
+            before = n_ok
+            if any(isinstance(pe, dict) and pe.get('downcast') in ('Text', 'Symbol') for i_ in b.normal_blocks for st_ in b.blocks[i_]['stmts'] if st_['k'] == 'assign'
+                   for o_ in st_['ops'] for pe in ((o_.get('copy') or o_.get('move') or {}).get('proj', []))):
+                touches_text.add(rx)
             ctx.fn(b)
             in_closure = b.kind == 'closure'
+            env = None
+            if in_closure:
+                # captured values: resolve `env.#k` through the aggregate the creating function builds
+                parent = ctx.facts.bodies.get(b.rec.get('parent') or '')
+                if parent is not None:
+                    agg = model._closure_sites(ctx.facts, parent).get(b.path)
+                    if agg is not None:
+                        env = [agg] + [('arg', j + 1, b.arg_names.get(j + 1)) for j in range(1, b.argc)]
             for bid, t in b.calls():
                 c = t.get('callee')
                 if not c:
                     continue
                 path = c['path']
                 args = [b.expr(a) for a in t['args']]
+                if env is not None:
+                    from .facts import subst_args
+                    args = [subst_args(a, env) for a in args]
                 direct = [a for a in args if _is_text_payload(a)]
                 is_eq = bool(re.search(r'PartialEq.*::(eq|ne)$', path))
                 str_typed = any(re.search(r'String|str', (a.get('copy') or a.get('move') or {}).get('ty', '')) for a in t['args'])
+                if direct and c.get('local') and path in ctx.facts.bodies and _helper_compares_lowercased(ctx.facts.bodies[path]):
+                    # a crate-local helper that lower-cases both of its parameters before comparing them (extract-method of the idiom)
+                    n_ok += 1
+                    per_member[rx] += 1
+                    ctx.ok(rid, '%s: %s(..) = to_lowercase(a) == to_lowercase(b)' % (fn_key(b.path), fn_key(path)), 'shape', site=t['loc'], sample=n_ok < 3)
+                    continue
                 if direct and not re.search(r'::to_lowercase$|::clone$|::to_string$|Deref>::deref$|::to_owned$|fmt::|::as_str$|Option::<.*>::(as_ref|map_or|map|is_some|is_none|as_deref)$', path):
                     ctx.finding(rid, '%s/raw-text-compare/%s' % (fn_key(b.path), path.rsplit('::', 1)[-1]),
                                 '%s hands a text payload to %s without lower-casing it: the comparison is not case-insensitive the way keys are built (to_lowercase)' % (fn_key(b.path), path), site=t['loc'])
@@ -333,9 +376,16 @@ def check_case_insensitive_compares(ctx, rid, floor_total=10):
                         continue
                     if all(lows):
                         n_ok += 1
+                        per_member[rx] += 1
                         ctx.ok(rid, '%s: to_lowercase(..) == to_lowercase(..)' % fn_key(b.path), 'shape', site=t['loc'], sample=n_ok < 3)
                     else:
                         ctx.finding(rid, '%s/one-sided-lowercase' % fn_key(b.path), '%s compares %s with %s: not both sides are lower-cased' % (fn_key(b.path), render(args[0])[:60], render(args[1])[:60]), site=t['loc'])
-    if n_ok < floor_total:
-        ctx.finding(rid, 'case-insensitive-compares/count', 'anchor lost: only %d lower-cased text comparisons found in the comparison family, %d were confirmed by hand (an arm stopped comparing through to_lowercase)' % (n_ok, floor_total))
+    # (per-member counts are accumulated below)
+    # every member of the comparison family that looks at a text payload must compare it lower-cased at least once; the total
+    # is only a vacuity guard (merging two arms into one helper call must not trip it)
+    for rx, cnt in sorted(per_member.items()):
+        if cnt == 0 and rx in touches_text:
+            ctx.finding(rid, 'case-insensitive-compares/%s' % re.sub(r'[^A-Za-z:_]', '', rx)[-40:], 'anchor lost: no lower-cased text comparison left in %s although it still inspects text payloads' % rx)
+    if n_ok < max(5, floor_total // 2):
+        ctx.finding(rid, 'case-insensitive-compares/count', 'anchor lost: only %d lower-cased text comparisons found in the comparison family (%d on the pinned tree)' % (n_ok, floor_total))
     return n_ok
